@@ -74,6 +74,16 @@ DONE = {
   'regenerated ring-polymorphic model + oracle hypotheses + Coq theorems over R + differential check',
   'arctan2/arccos are oracles whose defining hypothesis is checked on every recorded call; no-file-without-export is a harness check. F13 was fixed in /repo. '
   'Axioms: the standard-library Reals axioms only.'),
+ 'C11': ('§5.C11',
+  'Coq proves on the contact/Fnat/clash models (C05/C14/C08): every rigid motion preserves all squared distances, hence every contact decision at every '
+  'cutoff, hence contact atoms, pair maps, residue extension (the i-RMSD zone), residue pairs, the clash count and Fnat (decoy and reference may move '
+  'independently); generally the contact computation depends on the atoms only through identity fields and contact decisions (congruence theorem); '
+  'serial, altLoc, iCode, occupancy, B-factor, element and model are never read. Metamorphic correspondence: margin-safe pairs are scored by the six '
+  'routines, clashes, DockQ and CAPRI class together with nine variants (lattice motions of decoy / of both, arbitrary rigid motion, rewritten ignored '
+  'fields, residue-number shift, added hydrogens, three permutation levels x both enforcement settings); the C07 models are re-tied on a variant.',
+  'Coq invariance theorems on the models (congruence, ring identities) + metamorphic differential check of the real routines',
+  'PARTIAL: invariance of the minimum-RMSD values, renumbering, hydrogens and permutations are decided by the metamorphic correspondence only. '
+  'Known finding F6 (permuted decoy + fast RMSD routes without enforcement). Print Assumptions: closed under the global context.'),
  'C12': ('§5.C12',
   'CAPRI cascade and DockQ formula are regenerated from the source by the translator on every run; theorems (total, equal to the '
   'published table in two readings, monotone; DockQ = formula, range, perfect, monotone) are proved in Coq for all rationals; '
